@@ -31,7 +31,8 @@ EXTRA_THREE = "let g{i} = [\n    {i},\n];"
 
 PRELUDE = ["let ident = func (p) => p;", "let tt = {\n    have = 1,\n    sv = \"s\",\n};", "let ll = [\n    1,\n];",
            "let sv = \"s\";", "let two = func (p, q) =>\n    p +\n    q;", "let ls = [\n    \"s\",\n];",
-           "let inc = func (n) =>\n    n +\n    1;", "let mm = module {\n    p = 1,\n} => (r) {\n    let r = mod.p + 1;\n};"]
+           "let inc = func (n) =>\n    n +\n    1;", "let mm = module {\n    p = 1,\n} => (r) {\n    let r = mod.p + 1;\n};",
+           "let mo = module {\n    v = \"s\",\n} => (mod.v) {\n    let x = 1;\n};", "let mt = module {\n    v = \"s\",\n} => {\n    let x = mod.v;\n};"]
 # A value of the wrong type handed to a function or a module: the fault is the call. At run time it
 # shows inside the callee, which is then the primary position with the calling statement listed as
 # VIA; both placements are accepted. {consumer: index of the callee's statement in PRELUDE}
@@ -66,6 +67,9 @@ PRODUCERS = [
     ("format", "(\"@\" % (\"s\"))"),
     ("concat", "(\"\" + \"s\")"),
     ("reduce", "reduce(func (acc, it) => acc + it, \"\", ls)"),
+    ("module-out-expression", "mo{}"),
+    ("module-out-expression-with-argument", "mo{v = \"s\"}"),
+    ("module-result-field", "mt{}.x"),
 ]
 CONSUMERS = [
     ("type-mismatch-right", "1 + @P@"),
@@ -97,6 +101,7 @@ NEST = [
     ("select-arm", "let q = select (\"a\", 0) => {\n    a = @F@,\n};", None),
     ("function-body", "let fb = func (p) =>\n    @F@;", "let r = fb(\n    1\n);"),
     ("module-body", "let mb = module {\n    a = 1,\n} => {\n    let inner =\n        @F@;\n};", "let r = mb{\n    a = 2,\n};"),
+    ("module-out-expression", "let mb = module {\n    a = 1,\n} => (\n    @F@) {\n    let inner = 1;\n};", "let r = mb{\n    a = 2,\n};"),
     ("copy-field", "let q = tt{\n    extra = @F@,\n};", None),
     # the fault sits in a function that map / filter / reduce call back, over a collection defined in yet another statement
     ("callback-function-called-by-map", "let cb = func (it) =>\n    @F@;", "let r = map(\n    cb,\n    ll\n);"),
@@ -111,6 +116,10 @@ NEST = [
     ("format-argument", "let q = \"v=@\" % (\n    @F@\n);", None),
     ("binary-right-operand", "let q = tt.have +\n    @F@;", None),
     ("select-default", "let q = select (\"zz\",\n    @F@) => {\n    a = 1,\n};", None),
+    # the fault sits in the expression embedded in a format template (@FQ@ = the fault text written inside a string literal)
+    ("format-expression", "let q = \"v=@{@FQ@}\" % 1;", None),
+    ("format-expression-on-a-continuation-line", "let q =\n    \"v=@{@FQ@}\" %\n    1;", None),
+    ("format-expression-second", "let q = \"@{item}, v=@{@FQ@}\" % 1;", None),
 ]
 
 
@@ -164,11 +173,13 @@ def gen_cases(thorough):
     nests = [(n, t, c) for n, t, c in NEST]
     if thorough:
         for (n, t, c), (en, et) in itertools.product(NEST, EXPR_NEST):
+            if "@FQ@" in t:
+                continue
             nests.append((n + "/" + en, t.replace("@F@", et), c))
     for (fname, ftext), (nname, ntext, caller) in itertools.product(FAULTS, nests):
-        if fname.startswith("syntax") and (nname.split("/")[0] in ("function-body", "module-body") or nname.startswith("callback-function")):
+        if fname.startswith("syntax") and (nname.split("/")[0] in ("function-body", "module-body", "module-out-expression") or nname.startswith("callback-function")):
             continue        # a syntax fault is found while parsing, not when the function / module is used
-        faulty = ntext.replace("@F@", ftext)
+        faulty = ntext.replace("@FQ@", ftext.replace("\\", "\\\\").replace('"', '\\"')).replace("@F@", ftext)
         for idx in range(0, nbase + 1):
             base = [BASE[k % len(BASE)].format(i=k, j=k) for k in range(nbase)]
             stmts = list(PRELUDE) + base[:idx] + [faulty] + base[idx:]
